@@ -2,8 +2,10 @@ import Sif.Model.Clp.State
 /-
   x/clp/keeper/msg_server.go + executors.go — the user messages of the AMM, as
   `St → … → R St` (`.error` = error return or recovered panic: DeliverTx discards the writes).
-  Out of this slice (fixed by the harness configuration): liquidity protection inactive, margin
-  disabled for every pool (no removal queue), removal lock period 0 (C15 covers unlocks),
+  Out of this slice (fixed by the harness configuration): liquidity protection inactive, the removal
+  queue disabled (clp param EnableRemovalQueue = false; it is never persisted anyway), removal lock
+  period 0 (C15 covers unlocks).  Pools may be margin-enabled (`Params.marginPools`) and carry margin
+  liabilities / custody: removals from an enabled pool pass the pool-health gate of the handlers,
   registry permissions all granted for registered tokens (C12 covers the permission table).
 -/
 namespace Sif.Clp
@@ -74,6 +76,36 @@ def poolAfterRemoval (pool : Pool) (lpUnits left wN wE : Nat) : M Pool := do
   let eB ← Uint.sub pool.eBal wE
   pure { pool with units := u, nBal := nB, eBal := eB }
 
+/-- `margin.CalculatePoolHealth` of the pool as it would be after the withdrawal: the product of
+    balance / (balance + liabilities) of both sides, 0 if a side is empty (sdk.Dec operations) -/
+def poolHealth3 (nB eB : Nat) (eS nS : Dec) : M Dec := do
+  let m1 ← (Dec.ofNat eB).quo eS
+  let m2 ← (Dec.ofNat nB).quo nS
+  m1.mul m2
+
+def poolHealth2 (nB eB nL : Nat) (eS : Dec) : M Dec := do
+  let nS ← (Dec.ofNat nB).add (Dec.ofNat nL)
+  if nS.isZero then pure Dec.zero else poolHealth3 nB eB eS nS
+
+def poolHealth (nB eB nL eL : Nat) : M Dec := do
+  let eS ← (Dec.ofNat eB).add (Dec.ofNat eL)
+  if eS.isZero then pure Dec.zero else poolHealth2 nB eB nL eS
+
+/-- the branch `if k.GetMarginKeeper().IsPoolEnabled(ctx, eAsset.Denom)` of both removal handlers (removal
+    queue disabled): `CalculateWithdrawalRowanValue` is evaluated (its panics count), then the removal is
+    refused (`ErrRemovalsBlockedByHealth`) if it would leave the pool health below the threshold -/
+def healthGateOn (s : St) (pool : Pool) (sym : String) (wN wE : Nat) : R Unit := do
+  let Xi ← liftM (Uint.add pool.eBal pool.eLiab)
+  let Yi ← liftM (Uint.add pool.nBal pool.nLiab)
+  let _ ← liftM (calcSwapResult true Xi wE Yi s.params.r (feeRate s.params sym))
+  let nB ← liftM (Uint.sub pool.nBal wN)
+  let eB ← liftM (Uint.sub pool.eBal wE)
+  let h ← liftM (poolHealth nB eB pool.nLiab pool.eLiab)
+  guardR (!(decide (h.i < s.params.removalThreshold.i)))
+
+def healthGate (s : St) (pool : Pool) (sym : String) (wN wE : Nat) : R Unit :=
+  if s.params.marginPools.contains sym then healthGateOn s pool sym wN wE else .ok ()
+
 /-- `RemoveLiquidity` (by basis points; asymmetry must be 0) -/
 def removeLiquidity (s : St) (signer sym : String) (wBasis : Nat) : R St := do
   guardR (s.params.registered.contains sym)
@@ -84,6 +116,7 @@ def removeLiquidity (s : St) (signer sym : String) (wBasis : Nat) : R St := do
   let (nD, eD) ← liftM pool.depths
   let (wN, wE, left) ← liftM (calculateWithdrawal pool.units nD eD lp.units wBasis)
   let _ ← liftM (Uint.sub lp.units left)
+  healthGate s pool sym wN wE
   let pool' ← liftM (poolAfterRemoval pool lp.units left wN wE)
   finishRemoval s { pool' with sym := sym } sym signer wN wE left nD eD
 
@@ -96,6 +129,7 @@ def removeLiquidityUnits (s : St) (signer sym : String) (wUnits : Nat) : R St :=
   let (nD, eD) ← liftM pool.depths
   let (wN, wE, left) ← liftM (calculateWithdrawalFromUnits pool.units nD eD lp.units wUnits)
   let _ ← liftM (Uint.sub lp.units left)
+  healthGate s pool sym wN wE
   let pool' ← liftM (poolAfterRemoval pool lp.units left wN wE)
   finishRemoval s { pool' with sym := sym } sym signer wN wE left nD eD
 
